@@ -42,7 +42,7 @@ def main():
 			pid = os.path.basename(d)[:3]
 			for patch in sorted(glob.glob(os.path.join(d, "m*.diff"))):
 				k = os.path.basename(patch)[:-5]
-				demo = os.path.join(d, f"{k}_demo.py")
+				demo = os.path.abspath(os.path.join(d, f"{k}_demo.py"))
 				notes = os.path.join(d, f"{k}.md")
 				rec = {"property": pid, "source": f"{os.path.basename(d)}/{k}", "repo_head": head}
 				sh(f"git -C {wt} reset -q --hard HEAD")
